@@ -483,6 +483,24 @@ def _nothing_else(ctx, loader, func):
         ctx.ob('C11.5', func, loop, ok,
                'restore ranges over the stored listing of that server: '
                '%s = %s' % (dom, src), construct='restore loop domain')
+        # ... all of it: the listing is not changed while it is walked
+        # (removing the current element makes the walk skip the next one)
+        body = K.loop_body_nodes(loop)
+        changed = []
+        for node in body:
+            for call in C.node_calls(node):
+                if K.recv_text(call) == dom and K.is_meth(
+                        call, 'remove', 'pop', 'append', 'insert',
+                        'extend', 'clear', 'sort', 'reverse'):
+                    changed.append(N.txt(call))
+            if node.kind == 'stmt' and isinstance(node.ast, ast.Delete) \
+                    and any(N.txt(t).startswith(dom + '[')
+                            for t in node.ast.targets):
+                changed.append(N.txt(node.ast))
+        ctx.ob('C11.5', func, loop, not changed,
+               'the listing is not modified while it is walked%s' % (
+                   ': %s' % changed if changed else ''),
+               construct='restore loop domain stable')
     gp = loader.methods.get('get_placed_apps')
     ctx.require(gp is not None, 'Loader.get_placed_apps')
     lists = [c for c in K.calls(gp.node) if K.is_meth(c, 'list') and
